@@ -262,6 +262,39 @@ def run(chk):
         if got != want and first is None:
             first = ("destructor chain with returns: implementation prints %s, 'derived first, each destructor to its own return' gives %s" % (got, want),
                      {"source": src, "kind": "destructor-return"})
+    # field initialisers run in the context of the class that declares them: `this` has that class as its static type (overloads,
+    # non-virtual methods re-declared below), whatever the dynamic class of the object under construction
+    its = []
+    for _ in range(200 if chk.thorough else 20):
+        depth = rng.randrange(2, 5)
+        codes = [rng.randrange(1, 90) for _ in range(depth)]
+        use_ovl, use_code = rng.random() < 0.8, rng.random() < 0.8
+        src = ["static class Log { %s }" % " ".join("public static function describe(I%d s) -> int { return %d; }" % (i, 100 + i) for i in range(depth))]
+        for i in range(depth):
+            flds = ""
+            if use_ovl:
+                flds += " public int tag%d = Log.describe(this);" % i
+            if use_code:
+                flds += " public int own%d = this.code();" % i
+            src.append("class I%d%s {%s public constructor() -> I%d { %sreturn this; } public function code() -> int { return %d; } }"
+                       % (i, (" extends I%d" % (i - 1)) if i else "", flds, i, "super(); " if i else "", codes[i]))
+        dyn = rng.randrange(depth)
+        echos, want = [], []
+        for i in range(dyn + 1):
+            if use_ovl:
+                echos.append("echo(o.tag%d);" % i); want.append(str(100 + i))
+            if use_code:
+                echos.append("echo(o.own%d);" % i); want.append(str(codes[i]))
+        src.append("function main() -> void { I%d o = new I%d(); %s echo(0); }" % (dyn, dyn, " ".join(echos)))
+        its.append(("\n".join(src), want + ["0"]))
+    _l4, itimpl, _m4, _inc4 = evallib.run_programs([(d[0], []) for d in its], with_model=False)
+    for (src, want), a in zip(its, itimpl):
+        chk.count(("initialiser-this", src))
+        got = evallib.split_result(a).get("echo_lines") if a.startswith("ok ") else [a[:120]]
+        if got != want and first is None:
+            first = ("field initialisers and `this`: implementation prints %s, 'initialisers run in their declaring class' gives %s" % (got, want),
+                     {"source": src, "kind": "initialiser-this"})
+    kinds["initialiser-this programs"] = len(its)
     kinds["destructor-return programs"] = len(drs)
     kinds["default-binding programs"] = len(dbs)
     kinds["lifetime programs"] = len(lps)
